@@ -156,6 +156,30 @@ def install(interp):
     def t_is_tensor(x):
         return isinstance(x, T)
 
+    _eq_count = [0]
+
+    def t_equal(a, b):
+        """torch.equal: one boolean for the whole tensors.  The same tensor object (or the same value term) is equal to
+        itself; otherwise a fresh boolean that, when true, forces the arbitrary elements to agree"""
+        import z3 as _z3
+        from .sym import SV as _SV, cur as _cur
+
+        if not (isinstance(a, T) and isinstance(b, T)):
+            raise Unsupported("torch.equal of non-tensors")
+        if a is b:
+            return True
+        if a.tlen is None and b.tlen is None:
+            try:
+                if a.f.eq(b.f):
+                    return True
+            except Exception:
+                pass
+            _eq_count[0] += 1
+            e = _z3.Bool(_cur().fresh_name("tensors_equal"))
+            _cur().assume(_z3.Implies(e, tz.coerce(a.f, "float") == tz.coerce(b.f, "float")))
+            return _SV(e)
+        raise Unsupported("torch.equal of tensors with a time axis")
+
     def t_sign(x):
         return x.sign()
 
@@ -195,7 +219,7 @@ def install(interp):
         abs=t_abs, cat=tz.cat, concat=tz.cat, stack=tz.stack, tensor_split=tz.tensor_split, arange=tz.arange,
         gather=tz.gather, scatter=tz.scatter, full=t_full, zeros=t_zeros, ones=t_ones, empty=t_empty,
         zeros_like=t_zeros_like, ones_like=t_ones_like, full_like=t_full_like, tensor=t_tensor,
-        heaviside=t_heaviside, maximum=t_maximum, minimum=t_minimum, is_tensor=t_is_tensor, sign=t_sign,
+        heaviside=t_heaviside, maximum=t_maximum, minimum=t_minimum, is_tensor=t_is_tensor, sign=t_sign, equal=t_equal,
         nan_to_num=t_nan_to_num, isnan=lambda x: x.isnan(), round=lambda x: x.round(), ceil=lambda x: x.ceil(),
         floor=lambda x: x.floor(), lgamma=lambda x: x.lgamma(), erf=lambda x: x.erf(), roll=lambda x, s, d=None: x.roll(s, d),
         flip=lambda x, d: x.flip(d), neg=lambda x: -x, square=lambda x: x * x,
